@@ -493,6 +493,10 @@ CasesC14(lazy) ==
   \cup {CaseX(<<Single("out", L(<<Single("$encode", EncArg(st))>> \o Elems(v)))>>, NoEnv, "listhost", <<v, st>>) : v \in {x \in Vals14 : IsList(x)}, st \in Stacks14}
   \cup {CaseX(<<Single("out", Mk2("$encode", a, "$value", S("x")))>>, NoEnv, "badarg", <<a>>) : a \in {I("1"), True, EmptyMap, L(<<I("1")>>), L(<<S("join"), EmptyMap>>)}}
   \cup {CaseX(<<Single("out", L(<<Single("$encode", S("join")), Single("$encode", S("values")), S("x")>>))>>, NoEnv, "twomarkers", <<>>) : dummy \in {1}}
+  (* a list-form $encode inside the body of an inline $repeat: every copy is encoded, not only the first *)
+  \cup {CaseX(<<Single("out", L(<<Mk3("$repeat", I("3"), "args", L(<<S("a"), S("b"), Single("$encode", EncArg(st))>>), "i", S("$repeat"))>>))>>, NoEnv, "repeatenc", st)
+          : st \in {<<"join:,">>, <<"prefix:-", "join">>, <<"flatten">>}}
+  \cup {CaseX(<<Single("out", Single("$\"k{$repeat}\"", Mk2("$repeat", I("2"), "args", L(<<Single("$encode", S("join:+")), S("x"), S("y")>>))))>>, NoEnv, "repeatencmap", <<>>) : dummy \in {1}}
   (* $decode: the shapes that are errors before any decoder is asked *)
   \cup {CaseX(<<Single("out", d)>>, NoEnv, "baddecode", <<>>)
           : d \in { Mk2("$decode", S("json"), "$value", I("5")), Mk2("$decode", S("json"), "$value", L(<<S("1")>>)),
@@ -516,6 +520,12 @@ LawC14(cs) ==
             /\ (st = <<"join:,">> /\ IsList(v)) => r = Ok(S(JoinStr([i \in DOMAIN Elems(v) |-> Fmt(Elems(v)[i])], ",")))
             /\ (st = <<"prefix:--">> /\ IsList(v)) => r = Ok(L([i \in DOMAIN Elems(v) |-> S("--" \o Fmt(Elems(v)[i]))]))
             /\ (st = <<"flatten">> /\ IsList(v) /\ \A i \in DOMAIN Elems(v) : ~IsList(Elems(v)[i])) => r = Ok(v)
+    [] cs.tag = "repeatenc" ->
+         LET r == EvalS(cs.docs, NoEnv)
+             want == FoldEnc(L(<<S("a"), S("b")>>), cs.aux) IN
+         want.ok /\ r = Ok(<<Single("out", L([i \in 1..3 |-> Mk2("args", want.v, "i", I(NatStr(i - 1)))]))>>)
+    [] cs.tag = "repeatencmap" ->
+         EvalS(cs.docs, NoEnv) = Ok(<<Single("out", Mk2("k0", Single("args", S("x+y")), "k1", Single("args", S("x+y"))))>>)
     [] cs.tag \in {"badarg", "twomarkers", "baddecode"} -> ~EvalS(cs.docs, NoEnv).ok
     [] OTHER -> TRUE
 
